@@ -16,17 +16,22 @@ PROPS = {}
 
 PROPS["C02"] = dict(
     level="proof",
-    verus=["c02_anchor", "c02_dispatch"],
+    verus=["c02_anchor", "c02_dispatch", "c02_matchers"],
     labels=["C02."] + MASK,
     kani=[],
-    trusted=["memchr::memmem::find = first occurrence (shim)", "str::starts_with/ends_with(char) byte-level axioms",
-             "the nine per-shape matchers are uninterpreted in the dispatch proof",
-             "regex translation of '*' and '^' (regex crate) is not under contract"],
+    witness=["c02_remainder.rs"],
+    trusted=["memchr::memmem::find = first occurrence (shim)", "str::starts_with/ends_with/contains byte-level axioms (&str and ASCII char patterns)",
+             "UTF-8 facts stated as axioms: injectivity, both ends of a string are character boundaries, an occurrence of one string in another ends on a character boundary",
+             "vstd's prophetic iterator model for ExactSizeIterator::len and Iterator::any over the rule's pattern iterator",
+             "in the dispatch unit the per-shape matchers are uninterpreted; their bodies are proved in unit c02_matchers against their own contracts (the two units are not composed mechanically)",
+             "RegexManager::matches (regex cache + regex crate) and the translation of '*' and '^' to a regex (compile_regex) are not under contract: rx_spec is uninterpreted",
+             "Request well-formedness: the request hostname is a slice of the request URL (url_parser; preparsed() callers)"],
     assumptions=["machine integers are modelled exactly by Verus (overflow checked)"],
     level_text="Verus proves, for all strings, that hostname anchoring holds exactly at label-aligned occurrences (sound and complete), "
-               "that the anchor/regex flag combination selects the matcher the pattern syntax denotes, and the slicing safety and result of the "
-               "remainder-after-hostname helper",
-    level_note="per-shape matcher bodies (closure/iterator based) and regex semantics are outside the contracts; known finding: remainder is taken after the FIRST occurrence of the rule hostname in the URL",
+               "that the anchor/regex flag combination selects the matcher the pattern syntax denotes, the slicing safety and result of the "
+               "remainder-after-hostname helper, and the bodies of all nine per-shape matchers over any pattern iterator: plain = substring, '|p' = prefix, 'p|' = suffix, '|p|' = equality, "
+               "the '||host' shapes = label-aligned anchoring plus the remainder predicate on the text after the host (exactly, whenever the host text occurs once in the URL)",
+    level_note="regex semantics are outside the contracts; known finding (witness inputs replayed on the real crate): where the rule's host text occurs in the URL before its label-aligned occurrence, the remainder is taken after the wrong occurrence",
     design_ref="DESIGN.md section 4, C02",
 )
 
